@@ -130,7 +130,28 @@ def run(ctx):
     re_ = list(b.calls('realloc'))
     ctx.require(re_, 'psf_bump_header_allocation has no realloc')
     sz = bd.ev(b.unwrap(b.args(re_[0])[1]))
-    ctx.ob('HDR-CACHE', 'cap', sz.hi is not None and sz.hi <= 100 * 1024, b.loc(re_[0]), 'realloc size bounded by %s (cap 102400)' % sz.hi, None)
+    okcap = sz.hi is not None and sz.hi <= 100 * 1024
+    capwhy = 'realloc size bounded by %s (cap 102400)' % sz.hi
+    if not okcap:
+        # the cap may be limited to the parsers: a dominating refusal `newlen > K && psf->file.mode == SFM_READ` keeps every allocation made while READING a file under K
+        for n_ in b.walk():
+            if n_['k'] != 'IfStmt' or not (b.cfg.dominates(n_, re_[0]) or any(b.cfg.dominates(x_, re_[0]) for x_ in b.walk(b.N[n_['cond']]))) or not any(y['k'] == 'ReturnStmt' for y in b.walk(b.N[n_['then']])):
+                continue
+            conj_ = []
+            def _cj(x):
+                x = b.unwrap(x)
+                if x.get('k') == 'BinaryOperator' and x.get('op') == '&&':
+                    _cj(b.N[x['kids'][0]]); _cj(b.N[x['kids'][1]])
+                else:
+                    conj_.append(x)
+            _cj(b.N[n_['cond']])
+            size_arg = b.s(b.unwrap(b.args(re_[0])[1]))
+            caps_ = [c_ for c_ in conj_ if c_.get('k') == 'BinaryOperator' and c_.get('op') == '>' and b.s(b.unwrap(b.N[c_['kids'][0]])) == size_arg and (b.unwrap(b.N[c_['kids'][1]]).get('v') or 1 << 62) <= 100 * 1024]
+            rest_ = [c_ for c_ in conj_ if c_ not in caps_]
+            if caps_ and all(b.s(c_).replace(' ', '') in ('(psf->file.mode==SFM_READ)', '(psf->file.mode==16)') for c_ in rest_):
+                okcap = True
+                capwhy = 'while a file is being READ (`%s` -> refused) the realloc size is at most %d; in the write modes the size is what the caller\'s own metadata needs' % (b.s(n_['cond'])[:70], b.unwrap(b.N[caps_[0]['kids'][1]])['v'])
+    ctx.ob('HDR-CACHE', 'cap', okcap, b.loc(re_[0]), capwhy, None)
     hdr_zero(ctx, prog, 'HDR-CACHE')
     for name in ('header_read', 'header_gets', 'header_seek', 'psf_binheader_writef'):
         g = prog.fn(name, 'common.c')
